@@ -11,17 +11,19 @@ U, O, D, ST, PO = ("qexpy/data/utils.py", "qexpy/data/operations.py", "qexpy/dat
                    "qexpy/settings/settings.py", "qexpy/plotting/plotobjects.py")
 MUT = {
  # ---------------- C02: draws outside the domain of an operator
- "c02-sqrt-of-abs (the translator follows it)": ("C02", O,
+ "c02-sqrt-of-abs": ("C02", O,
     "    lit.SQRT: np.sqrt,\n", "    lit.SQRT: lambda x: np.sqrt(abs(x)),\n"),
- "c02-ln-clipped-at-tiny": ("C02", O,
-    "    lit.LN: np.log,\n", "    lit.LN: lambda x: np.log(np.maximum(x, 1e-300)),\n"),
+ "c02-sqrt-as-fourth-root-of-square (the translator follows it)": ("C02", O,
+    "    lit.SQRT: np.sqrt,\n", "    lit.SQRT: lambda x: (x ** 2) ** 0.25,\n"),
+ "c02-ln-of-abs": ("C02", O,
+    "    lit.LN: np.log\n", "    lit.LN: lambda x: np.log(abs(x))\n"),
  "c02-nonfinite-replaced-by-mean": ("C02", O,
     "        result_data_set = result_data_set[np.isfinite(result_data_set)]\n",
     "        bad = ~np.isfinite(result_data_set)\n        if bad.any() and not bad.all():\n"
     "            result_data_set = np.where(bad, np.mean(result_data_set[~bad]), result_data_set)\n"
     "        result_data_set = result_data_set[np.isfinite(result_data_set)]\n"),
  "c02-pow-of-negative-base-uses-abs": ("C02", O,
-    "    lit.POW: lambda x, y: x ** y,\n", "    lit.POW: lambda x, y: np.sign(x) * abs(x) ** y,\n"),
+    "    lit.POW: lambda x, a: x ** a,\n", "    lit.POW: lambda x, a: abs(x) ** a,\n"),
  # ---------------- C02 / C16: configuration touched by other sub-systems
  "c02-decorator-restores-default": ("C02", ST,
     "                set_monte_carlo_sample_size(temp_size)\n",
